@@ -204,8 +204,16 @@ def run(rep, tier):
     leafp = [nows(show(n["rhs"])) for n in mk.walk() if n.get("k") == "assign" and n["op"] == "=" and nows(show(n["lhs"])).endswith(".probability") and "getValue" in show(n["rhs"])]
     ok = len(leafp) == 2 and all(p.endswith("/sum_of_values)") or p.endswith("/sum_of_values") for p in leafp) and "leftLeaf->getValue()+" in leafp[0] and "rightLeaf->getValue()" in leafp[0]
     rep.check(ok, "R14.5", "leaf-probabilities", "last-level probability = (left + right)/sum (single leaf: value/sum)", "makeTree leaf-level probabilities are %s" % leafp, mk.loc(), sample=True)
-    sumv = [n for n in mk.walk() if n.get("k") == "assign" and n["op"] == "+=" and nows(show(n["lhs"])) == "sum_of_values"]
-    rep.check(len(sumv) == 1 and nows(show(sumv[0]["rhs"])) == "e.getValue()", "R14.5", "normaliser", "sum_of_values = sum of event values", "makeTree normaliser is not the sum of all event values", mk.loc())
+    fmk = Fold(mk).run()
+    sv = fmk.exit_env().get(("field", "sum_of_values"))
+    oks, whys = False, "sum_of_values is not assigned"
+    if sv is not None and not isinstance(sv, (tuple, sp.Matrix)):
+        sums = [a for a in sp.preorder_traversal(sv) if str(getattr(a, "func", "")).startswith("SUM_")]
+        stale = S("sum_of_values") in sv.free_symbols
+        oks = not stale and len(sums) == 1 and sp.simplify(sv - sums[0]) == 0 and str(getattr(sums[0].args[0], "func", "")) == "getValue"
+        whys = ("the normaliser is %s: it still contains its value from before the call, so building the tree a second time (kmclifetime rebuilds it after adding decay events) "
+                "normalises with the sum of both builds and the selection intervals no longer have length rate/escape_rate" % sv) if stale else "the normaliser is %s, not the sum of all event values" % sv
+    rep.check(oks, "R14.5", "normaliser", "sum_of_values = sum of the event values of this build (independent of any earlier build)", "makeTree: " + whys, mk.loc(), sample=True)
     # orientation: descent, leaf choice, probability shifting
     desc = [n for n in fh.walk() if n.get("k") == "if" and "probability" in show(n["cond"])]
     okd = len(desc) == 1 and nows(show(desc[0]["cond"])) == "(p>node->probability)" and "leftChild" in show(desc[0]["then"]["stmts"][0] if desc[0]["then"].get("k") == "compound" else desc[0]["then"]) \
